@@ -39,6 +39,7 @@ PInit(cfg) ==
     nstor   |-> [s \in Streams |-> 0],       \* frames appended to storage in this acquisition
     camRun  |-> [s \in Streams |-> FALSE],
     storRun |-> [s \in Streams |-> FALSE],
+    partial |-> [s \in Streams |-> FALSE],   \* an averaged frame built from an incomplete window has been appended
     camFail |-> [s \in Streams |-> FALSE],
     storFail|-> [s \in Streams |-> FALSE],
     mon     |-> [s \in Streams |-> -1],      \* next frame id the monitoring client must see; -1 = none seen yet
@@ -76,14 +77,20 @@ PlainRules(s, f, pos) ==
   \o If(~f.ok, "StorPixelsAltered")
   \o LayoutRules(f, "FrameMisaligned", "FrameSizeField")
 
-\* averaged frame number pos (C10): window = camera frames k*pos .. k*pos+k-1
+\* averaged frame number pos (C10): window = camera frames k*pos .. k*pos+k-1.
+\* A window all of whose inputs the camera has delivered must carry their exact mean. A window with fewer inputs (the
+\* trailing incomplete window of a finite run, or whatever was open when the run was aborted / failed) may only be the
+\* LAST frame of the acquisition; its pixel values are not judged.
 AvgRules(s, f, pos) ==
-  LET k == SC(s).avg  N == SC(s).n  full == IF N >= 0 THEN N \div k ELSE -1 IN
+  LET k == SC(s).avg  N == SC(s).n  full == IF N >= 0 THEN N \div k ELSE -1
+      complete == Len(p.cam[s]) >= k * (pos + 1)
+      clean == ~p.aborted /\ ~p.camFail[s] /\ ~p.storFail[s] IN
   If(f.ty # "f32", "AvgNotFloat")
   \o If(f.id # k * pos, "AvgWindowId")
   \o If(N >= 0 /\ pos > full, "AvgTooManyFrames")
-  \o If((N < 0 \/ pos < full) /\ Len(p.cam[s]) < k * (pos + 1), "AvgBeforeInputs")
-  \o If((N < 0 \/ pos < full) /\ ~f.ok, "AvgWrongMean")
+  \o If(p.partial[s], "AvgPartialNotLast")
+  \o If(~complete /\ clean /\ (N < 0 \/ pos < full), "AvgBeforeInputs")
+  \o If(complete /\ ~f.ok, "AvgWrongMean")
   \o If(Len(p.cam[s]) >= 1 /\ (p.cam[s][1].w # f.w \/ p.cam[s][1].h # f.h), "FrameShape")
   \o LayoutRules(f, "FrameMisaligned", "FrameSizeField")
 
@@ -137,7 +144,7 @@ NewEpoch ==
   [p EXCEPT !.ep = p.ep + 1, !.active = TRUE, !.aborted = FALSE,
             !.cam = [s \in Streams |-> <<>>], !.nstor = [s \in Streams |-> 0],
             !.camFail = [s \in Streams |-> FALSE], !.storFail = [s \in Streams |-> FALSE],
-            !.mon = [s \in Streams |-> -1]]
+            !.partial = [s \in Streams |-> FALSE], !.mon = [s \in Streams |-> -1]]
 
 Next1 ==
   /\ l <= Len(Tr) /\ ~done /\ l' = l + 1 /\ done' = FALSE
@@ -173,7 +180,10 @@ Next1 ==
        [] k = "StorStart" -> Flag(If(p.storRun[e.s], "StorStartWhileRunning") \o Quiet(e)) /\ p' = [p EXCEPT !.storRun[e.s] = TRUE]
        [] k = "StorStop" -> Flag(If(~p.storRun[e.s], "StorStopWhileStopped")) /\ p' = [p EXCEPT !.storRun[e.s] = FALSE]
        [] k = "StorAppend" -> /\ Flag(StorAppendRules(e.s, e))
-                              /\ p' = [p EXCEPT !.nstor[e.s] = p.nstor[e.s] + Len(e.frames)]
+                              /\ p' = [p EXCEPT !.nstor[e.s] = p.nstor[e.s] + Len(e.frames),
+                                                !.partial[e.s] = p.partial[e.s] \/
+                                                   (SC(e.s).avg > 1 /\ Len(e.frames) > 0 /\
+                                                    Len(p.cam[e.s]) < SC(e.s).avg * (p.nstor[e.s] + Len(e.frames)))]
        [] k = "MonMap" -> /\ Flag(MonMapRules(e.s, e))
                           /\ p' = [p EXCEPT !.held[e.s] = [i \in 1..Len(e.frames) |-> e.frames[i].tag],
                                             !.heldId[e.s] = IF Len(e.frames) > 0 THEN e.frames[1].id ELSE -1]
